@@ -63,10 +63,48 @@ def _setup():
     return _state
 
 
-def call_real(fn, gateway, job, gk, timeout):
+BIG_WIDTH = 7                      # label values are zero-padded: every sample line has the same length
+_big = {}
+
+
+def big_registry(children, cache=True):
+    """(registry, generate_latest(registry)) for one Gauge with `children` labelled children; 0 = the probe registry"""
+    st = _setup()
+    if not children:
+        return st['registry'], st['expo']
+    if children in _big:
+        return _big[children]
+    from prometheus_client import CollectorRegistry, Gauge
+    reg = CollectorRegistry()
+    g = Gauge('c19_big', 'large registry for C19', ['l'], registry=reg)
+    for i in range(children):
+        g.labels('%0*d' % (BIG_WIDTH, i)).set(1.0)
+    out = (reg, st['exposition'].generate_latest(reg))
+    if cache:
+        if len(_big) >= 3:
+            _big.pop(next(iter(_big)))
+        _big[children] = out
+    return out
+
+
+def children_for(target):
+    """(n_under, n_over): numbers of children whose exposition is the largest <= target and the smallest > target"""
+    b1, b2 = len(big_registry(1, cache=False)[1]), len(big_registry(2, cache=False)[1])
+    line, head = b2 - b1, b1 - (b2 - b1)
+    n = max(1, (target - head) // line)
+    return n, n + 1
+
+
+def call_case(case):
+    return call_real(case['fn'], case['host_spelled'], case['job'], dict((k, v) for k, v in case['gk']), case['timeout'],
+                     case.get('children', 0))
+
+
+def call_real(fn, gateway, job, gk, timeout, children=0):
     """run the real public function with a capturing handler -> capture dict (or {'exc': name})"""
     st = _setup()
     ex = st['exposition']
+    registry = big_registry(children)[0]
     cap = {'calls': 0, 'ran': 0}
 
     def handler(url, method, timeout, headers, data):
@@ -78,9 +116,9 @@ def call_real(fn, gateway, job, gk, timeout):
         return do
     try:
         if fn == 'put':
-            ex.push_to_gateway(gateway, job, st['registry'], grouping_key=gk, timeout=timeout, handler=handler)
+            ex.push_to_gateway(gateway, job, registry, grouping_key=gk, timeout=timeout, handler=handler)
         elif fn == 'post':
-            ex.pushadd_to_gateway(gateway, job, st['registry'], grouping_key=gk, timeout=timeout, handler=handler)
+            ex.pushadd_to_gateway(gateway, job, registry, grouping_key=gk, timeout=timeout, handler=handler)
         else:
             ex.delete_from_gateway(gateway, job, grouping_key=gk, timeout=timeout, handler=handler)
     except Exception as e:  # noqa
@@ -165,11 +203,19 @@ def oracle(case, cap):
     if fn == 'delete':
         if cap['data'] != b'':
             bad.append(('C19:body', 'delete sent a non-empty body (%d bytes)' % len(cap['data'] or b'')))
-    elif cap['data'] != st['expo']:
-        bad.append(('C19:body', '%s did not send the text exposition of the registry' % fn))
+    else:
+        expo = big_registry(case.get('children', 0))[1]
+        if cap['data'] != expo:
+            bad.append(('C19:body', '%s did not send the text exposition of the registry: generate_latest(registry) is %d bytes '
+                        '(registry with %s), the body handed to the handler is %s bytes%s, headers %r'
+                        % (fn, len(expo), '%d labelled children' % case['children'] if case.get('children') else 'the probe gauge',
+                           len(cap['data']) if isinstance(cap['data'], (bytes, bytearray)) else '?',
+                           ' and starts with the gzip magic' if bytes(cap['data'] or b'')[:2] == b'\x1f\x8b' else '',
+                           cap['headers'])))
     hdrs = [(str(k).lower(), v) for k, v in (cap['headers'] or [])]
     if hdrs != [('content-type', CONTENT_TYPE)]:
-        bad.append(('C19:content-type', 'headers %r, expected the single text content type' % (cap['headers'],)))
+        bad.append(('C19:content-type', 'headers %r, expected the single text content type (exposition %d bytes)'
+                    % (cap['headers'], len(big_registry(case.get('children', 0))[1]))))
     if cap['timeout'] is not case['timeout'] and cap['timeout'] != case['timeout']:
         bad.append(('C19:timeout', 'time-out %r handed on as %r' % (case['timeout'], cap['timeout'])))
     return bad
@@ -261,6 +307,28 @@ def gen_cases(ctx):
     return cases, n_ex
 
 
+def big_cases(ctx):
+    """push / pushadd / delete with LARGE registries: exposition sizes just under and just over powers of two.  The statement
+    pins the body (the text exposition of the given registry, no transformation) and the headers for every registry size."""
+    KiB = 1024
+    fns = ('put', 'post', 'delete')
+    if ctx.tier == 'quick' and not ctx.broken:
+        u1, o1 = children_for(1024 * KiB)
+        plan = [(u1, ('put',)), (o1, fns), (children_for(2048 * KiB)[1], ('post',))]
+    else:
+        plan = []
+        for k in (64, 128, 256, 512, 1024, 2048, 4096):
+            under, over = children_for(k * KiB)
+            plan += [(under, fns), (over, fns)]
+    out = []
+    for n, which in plan:
+        for fn in which:
+            c = mk_case(fn, 'localhost:9091', '', '', 'big job/%d' % n, [('size', n)], 30)
+            c['children'] = n
+            out.append(c)
+    return out
+
+
 def rand_value_str(rng):
     while True:
         v = rand_value(rng)
@@ -305,7 +373,7 @@ def compare_model(ctx, case, cap, reply):
     if m_hdrs != [tuple(h) for h in (cap['headers'] or [])]:
         ctx.diverge('headers: model %r, implementation %r' % (m_hdrs, cap['headers']), case)
     # for delete any non-empty body is "an exposition" (the real code would take the default registry's)
-    flag = 'X' if cap['data'] == b'' else ('E' if cap['data'] == st['expo'] or case['fn'] == 'delete' else '?')
+    flag = 'X' if cap['data'] == b'' else ('E' if cap['data'] == big_registry(case.get('children', 0))[1] or case['fn'] == 'delete' else '?')
     if rep[4] != flag:
         ctx.diverge('body: model %s, implementation %s (E = exposition, X = empty)' % (rep[4], flag), case)
     if rep[5] != tok(cap['timeout']):
@@ -333,13 +401,27 @@ def classify(case):
 
 
 def still_fails(case, sig):
-    cap = call_real(case['fn'], case['host_spelled'], case['job'], dict((k, v) for k, v in case['gk']), case['timeout'])
+    cap = call_case(case)
     return any(s == sig for s, _ in oracle(case, cap))
 
 
 def shrink(case, sig):
     """greedy minimisation of a failing whole-request case (labels, then characters)"""
     c = dict(case)
+    cand = dict(c, job='', gk=[])
+    if (c['job'] or c['gk']) and still_fails(cand, sig):          # fast path: the labels play no part
+        c = cand
+    if c.get('children'):
+        # smallest registry that still fails (bisection; assumes the failure is monotone in the size)
+        lo, hi = 0, c['children']
+        while hi - lo > 1:
+            mid = (lo + hi) // 2
+            if still_fails(dict(c, children=mid), sig):
+                hi = mid
+            else:
+                lo = mid
+        c['children'] = hi
+        c['body_bytes'] = len(big_registry(hi)[1])
     changed = True
     rounds = 0
     while changed and rounds < 60:
@@ -371,8 +453,7 @@ def shrink(case, sig):
 def run_use_cases(ctx, cases, shrink_failures=True):
     caps = []
     for case in cases:
-        caps.append(call_real(case['fn'], case['host_spelled'], case['job'], dict((k, v) for k, v in case['gk']),
-                              case['timeout']))
+        caps.append(call_case(case))
     replies = ctx.driver.run([driver_line(c) for c in cases])
     seen_url = ctx.extra.setdefault('_urls', {})
     n_fail_shrunk = 0
@@ -386,16 +467,25 @@ def run_use_cases(ctx, cases, shrink_failures=True):
         ctx.count('spelling:' + (case['scheme'] or 'none') + '+' + str(len(case['slashes'])) + 'slash')
         if any(not isinstance(v, str) for _, v in case['gk']):
             ctx.count('non-string value')
+        if case.get('children'):
+            size = len(big_registry(case['children'])[1])
+            ctx.count('large registry: exposition >= %d KiB' % (1 << (size.bit_length() - 1) >> 10))
+            sizes = ctx.extra.setdefault('_big_sizes', [])
+            if size not in sizes:
+                sizes.append(size)
         nontrivial = cap.get('url') if kinds - {'plain-safe'} else None
         ctx.case(nontrivial_key=nontrivial,
                  sample={'fn': case['fn'], 'gateway': case['host_spelled'], 'job': case['job'], 'grouping_key': case['gk'],
                          'url': cap.get('url'), 'method': cap.get('method')})
         for sig, what in oracle(case, cap):
             c = case
-            if shrink_failures and n_fail_shrunk < 3:
+            big_done = ctx.extra.setdefault('_big_shrunk', set())
+            if shrink_failures and n_fail_shrunk < 3 and not (case.get('children') and sig in big_done):
                 n_fail_shrunk += 1
+                if case.get('children'):
+                    big_done.add(sig)
                 c = shrink(case, sig)
-                cap2 = call_real(c['fn'], c['host_spelled'], c['job'], dict((k, v) for k, v in c['gk']), c['timeout'])
+                cap2 = call_case(c)
                 w2 = [w for s, w in oracle(c, cap2) if s == sig]
                 what = w2[0] if w2 else what
             ctx.fail(sig, what, dict(c, kind='use'))
@@ -545,14 +635,25 @@ def run(ctx):
                 '%r as job and as a label value; random jobs (length 0-12, full alphabet or arbitrary code points) with 0-4 '
                 'labels (legacy names, shuffled insertion order; values: strings, ints, floats, bools, None) over gateway '
                 'spellings %r x schemes %r x trailing slashes %r and the three public functions; a case is non-trivial when '
-                'the job or a value is empty, contains "/" or needs escaping; distinct by URL.  Function level: quote_plus, '
+                'the job or a value is empty, contains "/" or needs escaping; distinct by URL.  Large registries: exposition sizes '
+                'just under / over powers of two from 64 KiB (quick: just under / over 1 MiB and over 2 MiB; thorough or after a broken obligation: every '
+                'power up to 4 MiB) for all three functions.  Function level: quote_plus, '
                 'quote(safe=""), urlsafe_b64encode, _escape_grouping_key, urlparse scheme test/base, both spec decoders vs CPython.'
                 % (REDUCED, FULL, HOSTS, SCHEMES, SLASHES))
     _setup()
     cases, n_ex = gen_cases(ctx)
     run_use_cases(ctx, cases)
+    big = big_cases(ctx)
+    for n in sorted({c['children'] for c in big}):          # one registry size at a time (memory)
+        run_use_cases(ctx, [c for c in big if c['children'] == n])
+    _big.clear()
+    ctx.extra['large_registries'] = ('push/pushadd/delete with one Gauge of N labelled children, N chosen so that generate_latest '
+                                     'is the largest size <= and the smallest size > each target; body compared byte for byte with '
+                                     'generate_latest(registry), headers with the single text content type; sizes (bytes): %s'
+                                     % sorted(ctx.extra.pop('_big_sizes', [])))
     function_level(ctx, 600 if ctx.tier == 'quick' else 20000)
     ctx.extra.pop('_urls', None)
+    ctx.extra.pop('_big_shrunk', None)
     ctx.extra['exhaustive_part'] = ('%d strings enumerated exhaustively (length <= 3 over the reduced alphabet, <= 2 over the full '
                                     'one), each as job and as label value; the rest is seeded random' % n_ex)
     ctx.extra['two_decoders'] = ("every captured URL is decoded with urllib.parse.unquote (path unescaping, '+' literal: the Pushgateway) "
@@ -575,10 +676,12 @@ def replay(ctx, case):
     _setup()
     kind = c.get('kind', 'use')
     if kind == 'use':
-        print('replaying %s(gateway=%r, job=%r, grouping_key=%r, timeout=%r)' % (
-            c['fn'], c['host_spelled'], c['job'], dict((k, v) for k, v in c['gk']), c['timeout']))
+        print('replaying %s(gateway=%r, job=%r, grouping_key=%r, timeout=%r)%s' % (
+            c['fn'], c['host_spelled'], c['job'], dict((k, v) for k, v in c['gk']), c['timeout'],
+            ' with a registry of %d labelled children (exposition %d bytes)' % (c['children'], len(big_registry(c['children'])[1]))
+            if c.get('children') else ''))
         run_use_cases(ctx, [c], shrink_failures=False)
-        cap = call_real(c['fn'], c['host_spelled'], c['job'], dict((k, v) for k, v in c['gk']), c['timeout'])
+        cap = call_case(c)
         print('observed: url=%r method=%r headers=%r body=%d bytes timeout=%r' % (
             cap.get('url'), cap.get('method'), cap.get('headers'), len(cap.get('data') or b''), cap.get('timeout')))
     else:
